@@ -120,6 +120,8 @@ impl<B: Backend> AudioManager<B> {
 	) -> Result<TrackHandle, ResourceLimitReached> {
 		let (mut track, handle) =
 			builder.build(self.renderer_shared.clone(), self.internal_buffer_size);
+		#[cfg(feature = "verif-hooks")]
+		crate::verif::sync_point("renderer.sample_rate.load");
 		track.init_effects(self.renderer_shared.sample_rate.load(Ordering::SeqCst));
 		self.resource_controllers
 			.sub_track_controller
@@ -140,6 +142,8 @@ impl<B: Backend> AudioManager<B> {
 			listener.into(),
 			position.into().to_(),
 		);
+		#[cfg(feature = "verif-hooks")]
+		crate::verif::sync_point("renderer.sample_rate.load");
 		track.init_effects(self.renderer_shared.sample_rate.load(Ordering::SeqCst));
 		self.resource_controllers
 			.sub_track_controller
@@ -158,6 +162,8 @@ impl<B: Backend> AudioManager<B> {
 			.try_reserve()?;
 		let id = SendTrackId(key);
 		let (mut track, handle) = builder.build(id, self.internal_buffer_size);
+		#[cfg(feature = "verif-hooks")]
+		crate::verif::sync_point("renderer.sample_rate.load");
 		track.init_effects(self.renderer_shared.sample_rate.load(Ordering::SeqCst));
 		self.resource_controllers
 			.send_track_controller
